@@ -1308,19 +1308,31 @@ def k_c18_trie_split(ops, lines):
     it returned) whose node the insertion may split: K != P, K and P share a non-empty prefix of
     length L, P is not a prefix of K, and no key present in the map is a proper prefix of P of
     length >= L (such an entry ends a node at or below the point where K leaves P's path, so the node
-    holding P is not the one that is split)."""
+    holding P is not the one that is split); OR such a K is inserted while a PREFIX iterator is open whose
+    prefix R it shares a first byte with without starting with R (the node R names may be split: the
+    iterator's root then covers keys outside the prefix)."""
     if impl_of(ops) != "trie":
         return False
     ops, lines, _ = expand_scripted(ops, lines)
     tr, _ = parse_transcript(ops, lines)
     parked = {}
+    roots = {}          # open PREFIX iterators: id -> prefix (the node the prefix names is the iterator's root)
     present = set()
     for t, evs, res in tr:
         if res is None:
             break
+        if t[0] == "iter_new" and res == ["ok"] and len(t) > 2 and t[2] not in ("-", "*"):
+            roots[t[1]] = unhex(t[2])
         if t[0] in ("put", "nadd") and t[1] != "*":
             k = unhex(t[1])
             if k not in present:
+                # the same mechanism on the iterator's ROOT: an insertion that leaves the prefix's path inside the
+                # prefix (shares a non-empty proper part of it) may split the node the prefix names; the upper half
+                # keeps the iterator's root pointer and the traversal then runs outside the prefix (conservative:
+                # every such insertion while the prefix iterator is open)
+                for r in roots.values():
+                    if r and not k.startswith(r) and k[:1] == r[:1]:
+                        return True
                 for q in parked.values():
                     if q is None or q == k or k.startswith(q):
                         continue
@@ -1342,6 +1354,7 @@ def k_c18_trie_split(ops, lines):
             parked[t[1]] = unhex(res[0]) if len(res) == 2 and res[0] != "null" else None
         elif t[0] == "iter_free" and res == ["ok"]:
             parked.pop(t[1], None)
+            roots.pop(t[1], None)
     return False
 
 
